@@ -16,7 +16,7 @@ for f in glob.glob('/verif/seeded/*/meta.json'):
         replayed += 1
 nm = len(json.load(open('/verif/selftest/mutants.json')))
 tail = f"""
-{caught} of the {n} sub-agent changes (five rounds) and all {nm} mutants of the must-fail corpus are reported by
+{caught} of the {n} sub-agent changes (eight rounds) and all {nm} mutants of the must-fail corpus are reported by
 the check of their property, or - for the few changes that were written against one property and break a
 neighbouring one - by the check named in brackets (`selftest/run.py` and `tools/seed_recheck.py` apply each
 change to a scratch copy, require build + unedited suite to pass, run the check against the copy and require a
